@@ -85,6 +85,12 @@ impl TableWriter {
         self.offset_adjustment = 0;
     }
 
+    /// Verification hook: public access to [adjust_offsets](Self::adjust_offsets).
+    #[cfg(googlefonts_fontations_verif)]
+    pub fn verif_adjust_offsets(&mut self, adjustment: u32, f: impl FnOnce(&mut TableWriter)) {
+        self.adjust_offsets(adjustment, f)
+    }
+
     /// Write raw bytes into this table.
     ///
     /// The caller is responsible for ensuring bytes are in big-endian order.
